@@ -221,6 +221,12 @@ func (h Engine) applyAuthMiddleware(echoServer core.EchoRouter, path string, con
 	address := h.server.getAddressForPath(path)
 
 	skipper := func(c echo.Context) bool {
+		// The router dispatches on the parsed URL path, so that is what must be guarded.
+		// RequestURI differs from it for absolute-form request targets (RFC 9112 section 3.2.2)
+		// and carries the query string.
+		if matchesPath(c.Request().URL.Path, path) {
+			return false
+		}
 		return !matchesPath(c.Request().RequestURI, path)
 	}
 
